@@ -3,6 +3,7 @@ import json, os, subprocess
 from vlib import *
 import heapfam
 import jsonfam
+import viewfam
 
 
 def heap_run(prop, tier, seed, scratch):
@@ -92,5 +93,23 @@ for _p, _r in [("C03", jsonfam.run_parse), ("C04", jsonfam.run_total), ("C20", j
     REGISTRY[_p] = dict(run=_r, replay=doc_replay, level="model_checking", assumptions=JSON_ASSUME, engine="tlc-json",
                         level_text=_JT2[_p], level_note=JSON_NOTE, technique=JSON_TECH)
 ENGINES[-1]["serves_properties"] += ["C03", "C04", "C20"]
+
+VIEW_ASSUME = [
+    "TLC enumerates spec/Views.tla exhaustively only up to the list length / key bounds and over the token alphabet recorded in the evidence",
+    "callbacks are the free ones (call log, injective tag, order-sensitive fold): by parametricity they determine the behaviour for every callback",
+    "numeric concretisations keep every operand and partial result exactly representable; inexact float sums are not judged (fold order is not fixed by C18)",
+]
+VIEW_NOTE = "Exhaustive over all lists/objects inside the bounds; values are tokens concretised by the harness (identity, power-of-two scaling, extreme monotone maps). Trusted: TLC, the harness's token-to-value maps."
+VIEW_TECH = "TLA+ operators for views/sort/folds (Views.tla) evaluated by TLC on every list/object inside the bounds (PartitionLaw/SortLaw/FoldLaw invariants); expected results replayed against the real methods"
+ENGINES.append({"name": "tlc-views", "path": "spec/Views.tla bin/viewfam.py harness/cmd/vh/views.go", "serves_properties": ["C14", "C17", "C18"],
+                "kind_free_text": "TLA+ definitions of the typed views, Sort/Reverse and the numeric folds, evaluated by TLC on every container inside the bounds; results compared with the real methods"})
+_VT = {
+    "C14": "Every list (<= bound, all kinds, duplicates) and object enumerated by TLC with the per-kind selection computed by the spec; every typed/untyped ForEach/Map/Filter/Reduce/slice/All method is run with free callbacks and compared (order, multiplicity, index, identity, result keys).",
+    "C17": "Every homogeneous and mixed list inside the bounds with TLC's sorted permutation / reversal; Sort and Reverse run on lists built four ways (element storage shared with other lists) under three concretisations incl. extreme values, +-0 and equal-but-distinct containers.",
+    "C18": "Every numeric and interleaved list inside the bounds with TLC's exact rational folds; compared exactly under identity, power-of-two scalings (int64 overflow, 2^53 boundary) and extreme monotone concretisations.",
+}
+for _p, _r in [("C14", viewfam.run_c14), ("C17", viewfam.run_c17), ("C18", viewfam.run_c18)]:
+    REGISTRY[_p] = dict(run=_r, replay=doc_replay, level="model_checking", assumptions=VIEW_ASSUME, engine="tlc-views",
+                        level_text=_VT[_p], level_note=VIEW_NOTE, technique=VIEW_TECH)
 
 PENDING = {}
